@@ -3,7 +3,11 @@
 package s3db
 
 import (
+	"time"
+
+	"github.com/aws/aws-sdk-go/service/s3"
 	"github.com/jrhy/mast"
+	"github.com/jrhy/mast/persist/s3test"
 	"github.com/jrhy/s3db/kv"
 	"google.golang.org/protobuf/proto"
 )
@@ -17,3 +21,9 @@ func verifMarshal(m proto.Message) ([]byte, error) { return proto.Marshal(m) }
 
 // verifNodeCache returns the node cache unchanged.
 func verifNodeCache(c mast.NodeCache) mast.NodeCache { return c }
+
+// verifNow is the wall clock.
+func verifNow(string) time.Time { return time.Now() }
+
+// verifInMemoryS3 starts the process-wide in-memory bucket.
+func verifInMemoryS3() (*s3.S3, string, func()) { return s3test.Client() }
